@@ -3,7 +3,9 @@ pub mod c10;
 pub mod c11;
 pub mod c12;
 pub mod c14;
+pub mod c20;
 pub mod c21;
+pub mod c24;
 pub mod c27;
 pub mod c28;
 pub mod c29;
@@ -31,9 +33,11 @@ pub fn dispatch(id: &str, args: &[String]) -> ! {
         "C42" => c42::run(args),
         "C17" => dirchecks::run("C17", args),
         "C19" => replchecks::run("C19", args),
+        "C20" => c20::run(args),
         "C21" => c21::run(args),
         "C22" => dirchecks::run("C22", args),
         "C26" => dirchecks::run("C26", args),
+        "C24" => c24::run(args),
         "C27" => c27::run(args),
         "C28" => c28::run(args),
         "C29" => c29::run(args),
